@@ -2258,3 +2258,82 @@ pub fn enum_lists_with_foreign_content() -> (Vec<W>, Vec<W>) {
     }
     (msgs, exts)
 }
+
+/// Shapes an opaque blob can have that tempt a decoder to look inside: data behind an 8 / 16 / 24-bit length of its
+/// own (exactly filling the blob, with bytes after it, nested twice), the foreign structures, DER of several tags.
+pub fn content_shapes() -> Vec<Vec<u8>> {
+    let mut v: Vec<Vec<u8>> = vec![vec![], vec![0], vec![1], vec![0xff]];
+    for width in 1..=3usize {
+        for inner in [0usize, 1, 5, 40] {
+            for trailing in [0usize, 1, 2] {
+                let mut b: Vec<u8> = Vec::new();
+                for k in (0..width).rev() {
+                    b.push((inner >> (8 * k)) as u8);
+                }
+                b.extend((0..inner).map(|i| 0x61 + (i % 20) as u8));
+                b.extend((0..trailing).map(|i| 0xe0 + i as u8));
+                v.push(b.clone());
+                if inner == 5 && trailing == 0 {
+                    // the same once more inside a 24-bit length (a list of one entry)
+                    let mut l = vec![0, 0, b.len() as u8];
+                    l.extend_from_slice(&b);
+                    v.push(l);
+                }
+            }
+        }
+    }
+    v.extend(foreign_blobs());
+    // DER objects: every universal tag with a one-byte value in and out of small enumerations
+    for tag in [0x01u8, 0x02, 0x03, 0x04, 0x05, 0x06, 0x0a, 0x0c, 0x13, 0x17, 0x18, 0x30, 0x31, 0x80, 0xa0, 0xa3] {
+        for val in [0u8, 1, 6, 7, 8, 0x7f, 0x80, 0xff] {
+            v.push(vec![0x30, 0x03, tag, 0x01, val]);
+            v.push(vec![0x30, 0x82, 0x00, 0x03, tag, 0x01, val]);
+        }
+    }
+    v
+}
+
+/// every message / extension that carries one opaque blob, with `blob` in that place: (kind, encoding)
+pub fn opaque_carriers(blob: &[u8]) -> Vec<W> {
+    let mut v = Vec::new();
+    for st in [1u8, 2, 0, 3, 0xff] {
+        v.push(hs(22, |w| {
+            w.u8(st);
+            w.block(3, "blob", |w| {
+                w.bytes(blob);
+            });
+        }));
+    }
+    v.push(hs(11, |w| {
+        w.block(3, "cert_list_len", |w| {
+            w.block(3, "cert_len", |w| {
+                w.bytes(blob);
+            });
+        });
+    }));
+    v.push(hs(4, |w| {
+        w.u32(7200);
+        w.block(2, "ticket_len", |w| {
+            w.bytes(blob);
+        });
+    }));
+    for ty in [12u8, 16, 20, 15] {
+        v.push(hs(ty, |w| {
+            w.bytes(blob);
+        }));
+    }
+    v.push(hs(13, |w| {
+        w.block(1, "types", |w| {
+            w.u8(1);
+        });
+        w.block(2, "algs", |w| {
+            w.u16(0x0403);
+        });
+        w.block(2, "dns", |w| {
+            w.block(2, "dn", |w| {
+                w.bytes(blob);
+            });
+        });
+    }));
+    v
+}
